@@ -60,6 +60,7 @@ struct Obj {            // an awaited future and its producer
   int global_shared = -1;
   std::uint32_t cell = 0;  // written before the object is fulfilled, read by the coroutine after it resumed
   bool by_coroutine = false;  // produced by another coroutine (completion goes through final_suspend / symmetric transfer), not by Promise::Set
+  int bound_ex = -1;          // unique + Promise::Set only: made by MakeContractOn(e): the future carries executor e (and hands it to whoever awaits it)
 };
 
 struct Op {
@@ -134,6 +135,9 @@ class Case final : public sim::CaseBase {
           o.at = kTimes[g.Draw(5)];
           o.id = 100U * static_cast<std::uint32_t>(k + 1) + 10U * static_cast<std::uint32_t>(i) + static_cast<std::uint32_t>(op.objs.size());
           o.by_coroutine = g.Draw(3) == 2;
+          if (!shared && !o.by_coroutine && g.Draw(3) == 2) {
+            o.bound_ex = static_cast<int>(g.Draw(2));
+          }
           objs.push_back(o);
           return static_cast<int>(objs.size()) - 1;
         };
@@ -195,7 +199,7 @@ class Case final : public sim::CaseBase {
           for (int oi : op.objs) {
             const Obj& o = objs[static_cast<std::size_t>(oi)];
             j.Obj().KV("kind", op.kind == kAwaitTask ? (op.task_is_coroutine ? "lazy coroutine" : "MakeTask") : (o.shared ? (o.global_shared >= 0 ? "global shared" : "shared") : "unique"))
-              .KV("outcome", outs[o.outcome]).KV("completes_at_ns", o.at).KV("produced_by", o.by_coroutine ? "a coroutine (co_return/throw)" : "Promise::Set").End();
+              .KV("outcome", outs[o.outcome]).KV("completes_at_ns", o.at).KV("produced_by", o.by_coroutine ? "a coroutine (co_return/throw)" : (o.bound_ex >= 0 ? "Promise::Set, made by MakeContractOn(e)" : "Promise::Set")).End();
           }
           j.EndArr();
           j.KV("form", op.iterator ? "iterator" : "variadic").KV("failure_caught", op.guarded);
@@ -343,6 +347,11 @@ class Case final : public sim::CaseBase {
         auto [f, p] = yaclib::MakeSharedContract<T, E>();
         sf[i] = std::move(f);
         sp[i] = std::move(p);
+      } else if (objs[i].bound_ex >= 0) {
+        SIM_PROBE("awaited_future_bound_to_an_executor");
+        auto [f, p] = yaclib::MakeContractOn<T, E>(*ex[objs[i].bound_ex]);
+        uf[i] = std::move(f).On(nullptr);  // same core: it keeps carrying the executor
+        up[i] = std::move(p);
       } else {
         auto [f, p] = yaclib::MakeContract<T, E>();
         uf[i] = std::move(f);
